@@ -17,9 +17,9 @@ A_CACHE = A_ENV + [
 ]
 O_CACHE = ["bursts longer than the stated number of calls, more client goroutines than stated, more than 3 keys", "cost magnitudes >= 2^40", "shards other than 0 and 1"]
 
-QUICK_PAIRS = {(0,1,1),(0,0,1),(1,5,1),(1,8,0)}
+QUICK_PAIRS = {(0,1,1),(0,0,1),(1,5,1)}
 
-MENU = {"set0": 1, "set1": 2, "set2": 4, "del0": 8, "get0": 16, "wait": 32, "ttl0": 64, "get1": 128, "del1": 256, "heavy0": 512, "clear": 1024, "heavy2": 2048, "ttlfree0": 4096}
+MENU = {"set0": 1, "set1": 2, "set2": 4, "del0": 8, "get0": 16, "wait": 32, "ttl0": 64, "get1": 128, "del1": 256, "heavy0": 512, "clear": 1024, "heavy2": 2048, "ttlfree0": 4096, "big3": 8192}
 def menu(*names): return sum(MENU[n] for n in names)
 
 def burst(tiers, **p):
@@ -67,6 +67,7 @@ specs["C03"] = dict(prefixes=["C03.", "C09.fits", "no-panic"], runs=[
   {"pkg": "root", "fn": "vfH_Policy_Add", "params": {"residents": 4}, "tiers": T, "fallback": "cvc5-int,z3-new"},
   {"pkg": "root", "fn": "vfH_Policy_Add", "params": {"residents": 6}, "tiers": T, "fallback": "cvc5-int,z3-new", "max_paths": 60000},
   {"pkg": "root", "fn": "vfH_Policy_Ops", "params": {"residents": 3}, "tiers": QT, "fallback": "cvc5-int,z3-new"},
+  {"pkg": "root", "fn": "vfH_Policy_Add", "params": {"residents": 7, "unit": 1}, "tiers": QT, "fallback": "cvc5-int,z3-new"},
   burst(Q, ops=2, menu=menu("set1", "set2", "del0"), maxcost=2, setbuf=2, sketch=1, pre=2),
   burst(QT, ops=2, menu=menu("set0", "set1"), maxcost=1, setbuf=4, sketch=1, pre=1),
   burst(T, ops=3, menu=menu("set0", "set1", "set2", "del0"), maxcost=2, setbuf=2, sketch=1, pre=1),
@@ -74,7 +75,8 @@ specs["C03"] = dict(prefixes=["C03.", "C09.fits", "no-panic"], runs=[
  ], witnesses=["vfH_Policy_Add:end", "vfH_Policy_Ops:end", "vfH_Burst:end"],
  bounds=["one defaultPolicy.Add(key, cost) from an ARBITRARY policy state with 2..4 (quick: 3) resident keys, arbitrary costs in [0, 2^40], arbitrary MaxCost in (0, 2^40], arbitrary frequency estimates (tinyLFU.Estimate replaced by an uninterpreted function into [0,16]), every enumeration order of the sampling map (first enumeration by symmetry)",
   "Del / Update / Clear / UpdateMaxCost / Cap from the same arbitrary states",
-  "bursts of 3..4 Set/Del calls with MaxCost 2 and arbitrary sketch contents, then Wait: RemainingCost() = MaxCost - sum of accounted costs and >= 0"],
+  "bursts of 3..4 Set/Del calls with MaxCost 2 and arbitrary sketch contents, then Wait: RemainingCost() = MaxCost - sum of accounted costs and >= 0",
+  "a newcomer that needs all of 7 unit-cost residents as victims (more than one sample of 5), one enumeration order of the sampling map, flat estimates"],
  outside=["more than 4 residents exhaustively (6 residents: bounded number of paths in the thorough tier)", "costs / MaxCost >= 2^40 (wrap-around of used + cost)"] + O_CACHE,
  assumptions=A_CACHE + ["tinyLFU.Estimate is summarised by an uninterpreted function est(key) in [0,16] in the policy step harnesses (the policy only reads estimates under its lock)"])
 
@@ -133,6 +135,7 @@ specs["C13"] = dict(prefixes=["C13.", "no-panic", "no-deadlock"], runs=[
   burst(Q, ops=2, menu=menu("set1", "set2", "del0"), maxcost=1, setbuf=2, sketch=1, iter=1, pre=1),
   burst(QT, ops=1, menu=menu("heavy2"), maxcost=2, setbuf=2, sketch=1, iter=1, pre=2),
   burst(QT, ops=1, menu=menu("heavy2", "set2"), maxcost=2, setbuf=1, sketch=1, pre=2, drain=1),
+  burst(QT, ops=1, menu=menu("big3"), maxcost=3, setbuf=2, sketch=1, pre=3, nk=4, drain=1),
   burst(QT, ops=1, menu=menu("ttl0"), maxcost=2, setbuf=2, ttl=1, pre=0),
   burst(QT, ops=2, menu=menu("ttl0", "set1"), maxcost=2, setbuf=2, ttl=1, pre=0),
   burst(T, ops=2, menu=menu("ttl0", "set1", "heavy2"), maxcost=2, setbuf=2, ttl=1000000000, pre=1, sketch=1),
@@ -193,18 +196,28 @@ specs["C07"] = dict(prefixes=["C07.", "no-panic", "no-deadlock"], runs=[
  outside=O_CACHE + ["ttl values outside the grid", "wall-clock steps, monotonic-clock divergence", "clock readings more than a few minutes apart (small-clock encoding: instants = fixed base + 8-bit seconds + nanoseconds; shifting all instants is a symmetry of the code)"],
  assumptions=A_CACHE + ["Time.Sub / time.Until are computed as (sec difference)*1e9 + nsec difference, exact for instants a few minutes apart (no saturation)"])
 
+KEYOPS = range(5)  # Get, Set, SetWithTTL, Del, GetTTL
 specs["C08"] = dict(prefixes=["no-race", "no-panic", "no-deadlock", "terminates"], runs=[
+  # every pair of the 11 calls, on the same and on different keys, as choices after one snapshot; concrete
+  # key hashes (no data forks)
+  {"pkg": "root", "fn": "vfH_C08_Pair", "params": {"a": -1, "b": -1, "samekey": -1, "preempt": 1, "hashes": 1}, "tiers": QT},
+  {"pkg": "root", "fn": "vfH_C08_Pair", "params": {"a": -1, "b": -1, "samekey": 0, "preempt": 1, "hashes": 2}, "tiers": T},
+  {"pkg": "root", "fn": "vfH_C08_Pair", "params": {"a": -1, "b": -1, "samekey": -1, "preempt": 2, "hashes": 1, "skipheavy": 1}, "tiers": T},
+ ] + [
+  # per-pair runs with symbolic key hashes (any shard relation, any sketch / doorkeeper position)
   {"pkg": "root", "fn": "vfH_C08_Pair", "params": {"a": a, "b": b, "samekey": sk, "preempt": 2}, "tiers": (QT if (a, b, sk) in QUICK_PAIRS else T)}
-  for a in range(11) for b in range(a, 11) for sk in (1, 0) if not (sk == 0 and (a >= 5 and b >= 5))
+  for (a, b, sk) in sorted(set([(a, b, 1) for a in KEYOPS for b in KEYOPS if a <= b] + [(0,1,1),(0,0,1),(1,5,1),(3,5,1),(1,7,1),(0,7,1),(1,8,1),(1,6,1),(0,3,0),(3,0,0)]))
  ] + [
   {"pkg": "root", "fn": "vfH_C13_IterStops", "tiers": QT},
   {"pkg": "root", "fn": "vfH_C08_Pair", "params": {"a": 0, "b": 1, "samekey": 1, "preempt": 3, "bufitems": 1, "yieldatomics": 1}, "tiers": T},
-  {"pkg": "root", "fn": "vfH_C08_Pair", "params": {"a": 1, "b": 7, "samekey": 1, "preempt": 3, "setbuf": 1}, "tiers": T},
-  {"pkg": "root", "fn": "vfH_C08_Pair", "params": {"a": 3, "b": 6, "samekey": 1, "preempt": 3, "setbuf": 1}, "tiers": T},
-  {"pkg": "root", "fn": "vfH_C08_Pair", "params": {"a": 0, "b": 2, "samekey": 1, "preempt": 2, "ticks": 1}, "tiers": T},
+  {"pkg": "root", "fn": "vfH_C08_Pair", "params": {"a": 1, "b": 7, "samekey": 1, "preempt": 3, "setbuf": 1, "hashes": 1}, "tiers": T},
+  {"pkg": "root", "fn": "vfH_C08_Pair", "params": {"a": 3, "b": 6, "samekey": 1, "preempt": 3, "setbuf": 1, "hashes": 1}, "tiers": T},
+  {"pkg": "root", "fn": "vfH_C08_Pair", "params": {"a": 0, "b": 2, "samekey": 1, "preempt": 2, "ticks": 1, "hashes": 1}, "tiers": T},
   {"pkg": "root", "fn": "vfH_C08_Pair", "params": {"a": 0, "b": 1, "samekey": 1, "preempt": 2, "metrics": 0, "callbacks": 0, "bufitems": 64}, "tiers": T},
  ], witnesses=["vfH_C08_Pair:end"],
- bounds=["two client goroutines with one call each, for every unordered pair of {Get, Set, SetWithTTL, Del, GetTTL, IterValues, Wait, Clear, UpdateMaxCost, MaxCost/RemainingCost, Metrics readers} on the same key and on different keys (quick: a representative subset of pairs), pre-state with one resident, BufferItems=1 (every Get hands a batch to the policy goroutine), metrics and callbacks on; with the applier and policy goroutines; pre-emption bound 2 (3 for selected pairs); happens-before race detection on every memory access of every explored interleaving"],
+ bounds=["two client goroutines with one call each, for EVERY ordered pair of {Get, Set, SetWithTTL, Del, GetTTL, IterValues, Wait, Clear, UpdateMaxCost, MaxCost/RemainingCost, Metrics readers}, on the same key and on different keys (the first call on the resident key, the second on a key that is new), concrete key hashes in one shard, pre-emption bound 1 (thorough: 2, and different shards); pre-state with one resident, BufferItems=1 (every Get hands a batch to the policy goroutine), metrics and callbacks on; with the applier and policy goroutines",
+  "selected pairs with SYMBOLIC key hashes (quick: Get/Set, Get/Get, Set/IterValues; thorough: all pairs of the five keyed calls and pairs with Clear/Wait/UpdateMaxCost), pre-emption bound 2..3",
+  "happens-before (vector clock) race detection on every memory access of every explored interleaving: a race is reported if two accesses, one a write, are unordered in ANY explored schedule (one schedule per Mazurkiewicz trace suffices for a given pair of accesses)"],
  outside=["3..64 goroutines, more than one call per goroutine", "any notion of wall-clock progress: the claim is no deadlock / non-termination in any explored interleaving", "interleavings beyond the pre-emption bound"] + O_CACHE,
  assumptions=A_CACHE + ["sync.Pool may hand the same stripe to the next caller (LIFO)"])
 
@@ -286,7 +299,8 @@ specs["C14"] = dict(prefixes=["C14.", "no-panic", "no-deadlock"], runs=[
 
 specs["C16"] = dict(prefixes=["C16.", "no-panic"], runs=[
   {"pkg": "z", "fn": "vfH_C16_Reopen", "params": {"prefix": 5, "ops": 1, "menu": 2, "after": 0}, "tiers": QT},
-  {"pkg": "z", "fn": "vfH_C16_Reopen", "params": {"prefix": 5, "ops": 1, "menu": 2, "after": 1, "recipe": 1}, "tiers": QT},
+  {"pkg": "z", "fn": "vfH_C16_Reopen", "params": {"prefix": 4, "ops": 1, "menu": 2, "after": 1, "recipe": 1}, "tiers": Q},
+  {"pkg": "z", "fn": "vfH_C16_Reopen", "params": {"prefix": 5, "ops": 1, "menu": 2, "after": 1, "recipe": 1}, "tiers": T},
   {"pkg": "z", "fn": "vfH_C16_Reopen", "params": {"prefix": 9, "ops": 1, "menu": 2, "after": 0, "recipe": 1, "sortedvals": 1}, "tiers": QT},
   {"pkg": "z", "fn": "vfH_C16_Reopen", "params": {"prefix": 7, "ops": 0, "after": 0, "recipe": 0, "sortedvals": 1, "prescript": 1, "presets": 3}, "tiers": QT},
   {"pkg": "z", "fn": "vfH_C16_Reopen", "params": {"prefix": 5, "ops": 1, "menu": 2, "after": 2}, "tiers": T},
